@@ -16,6 +16,38 @@ sys.path.insert(0, os.path.dirname(os.path.abspath(__file__)))
 sys.setrecursionlimit(20000)
 
 
+class _QuietPipe:
+    """stdout that survives a reader closing the pipe early (`check.py C01 | head -1`): the verdict
+    is the exit code, which must not turn into a traceback because a line could not be printed"""
+
+    def __init__(self, f):
+        self._f = f
+        self._dead = False
+
+    def write(self, s):
+        if self._dead:
+            return len(s)
+        try:
+            return self._f.write(s)
+        except BrokenPipeError:
+            self._dead = True
+            return len(s)
+
+    def flush(self):
+        if self._dead:
+            return
+        try:
+            self._f.flush()
+        except BrokenPipeError:
+            self._dead = True
+
+    def __getattr__(self, k):
+        return getattr(self._f, k)
+
+
+sys.stdout = _QuietPipe(sys.stdout)
+
+
 def main(argv):
     if len(argv) < 2:
         print(__doc__)
